@@ -41,6 +41,8 @@ type Thread struct {
 	npts    uint32 // points since the last op boundary
 	what    string // description of pending point (debug)
 	waitObj uintptr
+	wasEnabled bool  // enabled at the previous scheduling step
+	stamp      int64 // step at which the thread last became enabled
 }
 
 // Step is one recorded decision.
@@ -488,25 +490,33 @@ func (x *Exec) exit(t *Thread) {
 	x.schedule(nil)
 }
 
-// enabledNormal lists enabled non-idle threads: the yielding thread first, then round-robin by id.
+// enabledNormal lists enabled non-idle threads in the default scheduler's order of preference: the yielding thread
+// first (no preemption), then the others, most recently woken first (a thread that has just become runnable because
+// of what the running thread did - a wakee - is what a real scheduler tends to run next), ties by ascending id.
 func (x *Exec) enabledNormal(me *Thread, buf []*Thread) []*Thread {
 	buf = buf[:0]
 	if me != nil && me.idleTo < 0 && (me.ready == nil || me.ready()) {
 		buf = append(buf, me)
 	}
-	// the others in round-robin order starting behind the yielding (or last running) thread
-	start := 0
-	if x.cur != nil {
-		start = x.cur.ID + 1
-	}
-	nth := len(x.threads)
-	for k := 0; k < nth; k++ {
-		t := x.threads[(start+k)%nth]
+	first := len(buf)
+	for _, t := range x.threads {
 		if t == me || t.done || t.idleTo >= 0 {
 			continue
 		}
 		if t.ready == nil || t.ready() {
+			if !t.wasEnabled {
+				t.wasEnabled = true
+				t.stamp = int64(x.nsteps)
+			}
 			buf = append(buf, t)
+		} else {
+			t.wasEnabled = false
+		}
+	}
+	// insertion sort of the tail by (stamp desc, id asc); the lists are tiny
+	for i := first + 1; i < len(buf); i++ {
+		for j := i; j > first && (buf[j].stamp > buf[j-1].stamp || (buf[j].stamp == buf[j-1].stamp && buf[j].ID < buf[j-1].ID)); j-- {
+			buf[j], buf[j-1] = buf[j-1], buf[j]
 		}
 	}
 	return buf
